@@ -72,7 +72,14 @@ type c6State struct {
 	edited  map[int]bool  // history of seq was edited since it was last continued
 	nextTag int
 	defrag  bool // some StartForward in this history moved cells
-	hist    []c6Op
+	// dead: a StartForward failed with ErrKvCacheFull. Both runners treat that as fatal (processBatch's error
+	// panics the runner), and a windowed cache has by then evicted entries for a batch that never arrived, so
+	// the cache is not used any further
+	dead bool
+	hist []c6Op
+	// expired[seq][tag]: at some earlier Forward the entry lay before the sliding window of its sequence's
+	// newest token, so a windowed cache was free to evict it
+	expired map[int]map[int]bool
 }
 
 func c6New(cfg c6Config) *c6State {
@@ -90,7 +97,7 @@ func c6New(cfg c6Config) *c6State {
 		c = NewCausalCache(sf)
 	}
 	c.Init(b, ml.DTypeF16, cfg.MaxSeq, cfg.Capacity, cfg.MaxBatch)
-	return &c6State{cfg: cfg, c: c, b: b, ref: map[int][]int{}, edited: map[int]bool{}, nextTag: 1}
+	return &c6State{cfg: cfg, c: c, b: b, ref: map[int][]int{}, edited: map[int]bool{}, nextTag: 1, expired: map[int]map[int]bool{}}
 }
 
 func (s *c6State) clone() *c6State {
@@ -120,12 +127,18 @@ func (s *c6State) clone() *c6State {
 	}
 	n.edited = maps.Clone(s.edited)
 	n.hist = slices.Clone(s.hist)
+	n.expired = map[int]map[int]bool{}
+	for k, v := range s.expired {
+		n.expired[k] = maps.Clone(v)
+	}
 	return &n
 }
 
 type c6Fail struct {
 	clause string
 	msg    string
+	// expiredOnly: every missing entry had lain before the window earlier (only set for missing-entry on windowed caches)
+	expiredOnly bool
 }
 
 func kval(tag, layer, h, d int, pos int32) float32 {
@@ -142,6 +155,28 @@ func (s *c6State) layout() string {
 		}
 	}
 	return b.String()
+}
+
+// where maps every live cell's identity (position and owning sequences) to its index.
+func (s *c6State) where() map[string]int {
+	m := map[string]int{}
+	for i, c := range s.c.cells {
+		if len(c.sequences) > 0 {
+			m[fmt.Sprint(c.pos, c.sequences)] = i
+		}
+	}
+	return m
+}
+
+// moved: some cell that is live before and after sits at a different index (defragmentation ran;
+// cells that merely disappeared were evicted by the sliding window)
+func moved(before, after map[string]int) bool {
+	for k, i := range before {
+		if j, ok := after[k]; ok && i != j {
+			return true
+		}
+	}
+	return false
 }
 
 func (s *c6State) liveCells() int {
@@ -169,23 +204,25 @@ func (s *c6State) refLive() int {
 func (s *c6State) apply(op c6Op) (fail *c6Fail) {
 	defer func() {
 		if r := recover(); r != nil {
-			fail = &c6Fail{"panic", fmt.Sprint(r)}
+			fail = &c6Fail{clause: "panic", msg: fmt.Sprint(r)}
 		}
 	}()
 	s.hist = append(s.hist, op)
 	c := s.c
 	clear := func(seq int) *c6Fail {
 		if err := c.Remove(seq, 0, math.MaxInt32); err != nil {
-			return &c6Fail{"clear-error", fmt.Sprintf("Remove(%d,0,MaxInt32) failed: %v", seq, err)}
+			return &c6Fail{clause: "clear-error", msg: fmt.Sprintf("Remove(%d,0,MaxInt32) failed: %v", seq, err)}
 		}
 		delete(s.ref, seq)
 		delete(s.edited, seq)
+		delete(s.expired, seq)
 		return nil
 	}
 	switch op.Kind {
 	case "copy":
 		c.CopyPrefix(op.Src, op.Dst, op.Len)
 		s.ref[op.Dst] = slices.Clone(s.ref[op.Src][:op.Len])
+		s.expired[op.Dst] = maps.Clone(s.expired[op.Src]) // the copy shares the source's cells: what was evicted there is gone here too
 		if len(s.ref[op.Dst]) == 0 {
 			delete(s.ref, op.Dst)
 		}
@@ -230,32 +267,27 @@ func (s *c6State) apply(op c6Op) (fail *c6Fail) {
 		tags = append(tags, s.nextTag)
 		s.nextTag++
 	}
-	before := s.layout()
+	before := s.where()
 	refLive := s.refLive()
 	ctx := s.b.NewContext()
 	err := c.StartForward(ctx, batch, false)
 	if err != nil {
 		if !errors.Is(err, ErrKvCacheFull) {
-			return &c6Fail{"forward-error", err.Error()}
+			return &c6Fail{clause: "forward-error", msg: err.Error()}
 		}
 		if s.cfg.Window == 0 && refLive+len(tags) <= len(c.cells) {
-			return &c6Fail{"spurious-full", fmt.Sprintf("cache reported full with %d live entries + %d new <= %d cells", refLive, len(tags), len(c.cells))}
+			return &c6Fail{clause: "spurious-full", msg: fmt.Sprintf("cache reported full with %d live entries + %d new <= %d cells", refLive, len(tags), len(c.cells))}
 		}
-		if !strings.HasPrefix(s.layout(), "") || before != s.layout() {
+		if moved(before, s.where()) {
 			s.defrag = true
 		}
 		// nothing was stored; the sequences stay as they were
+		s.dead = true
 		return s.checkAll("after-full")
 	}
 	// did existing live cells move? (defrag ran)
-	after := map[string]bool{}
-	for _, x := range strings.Split(s.layout(), ",") {
-		after[x] = true
-	}
-	for _, x := range strings.Split(before, ",") {
-		if x != "" && !after[x] && s.cfg.Window == 0 {
-			s.defrag = true
-		}
+	if moved(before, s.where()) {
+		s.defrag = true
 	}
 	n := len(tags)
 	for layer := 0; layer < c6Layers; layer++ {
@@ -277,6 +309,18 @@ func (s *c6State) apply(op c6Op) (fail *c6Fail) {
 	// reference
 	for i, seq := range op.Seqs {
 		s.ref[seq] = append(s.ref[seq], tags[i])
+	}
+	if s.cfg.Window > 0 {
+		for seq, l := range s.ref {
+			for p, tag := range l {
+				if int32(p) < int32(len(l)-1)-s.cfg.Window {
+					if s.expired[seq] == nil {
+						s.expired[seq] = map[int]bool{}
+					}
+					s.expired[seq][tag] = true
+				}
+			}
+		}
 	}
 	// what does the cache expose for every token of this batch, on every layer?
 	for layer := 0; layer < c6Layers; layer++ {
@@ -309,14 +353,14 @@ func (s *c6State) checkAll(when string) *c6Fail {
 						if kt, ok := c.keys[layer]; ok {
 							got := kt.(*fakeml.Tensor).At(0, 0, i)
 							if got != kval(tag, layer, 0, 0, int32(p)) {
-								return &c6Fail{"wrong-data-" + when, fmt.Sprintf("cell %d (seq %d pos %d) holds key %v, expected tag %d", i, seq, p, got, tag)}
+								return &c6Fail{clause: "wrong-data-" + when, msg: fmt.Sprintf("cell %d (seq %d pos %d) holds key %v, expected tag %d", i, seq, p, got, tag)}
 							}
 						}
 					}
 				}
 			}
 			if found != 1 {
-				return &c6Fail{"missing-" + when, fmt.Sprintf("seq %d pos %d is stored in %d cells", seq, p, found)}
+				return &c6Fail{clause: "missing-" + when, msg: fmt.Sprintf("seq %d pos %d is stored in %d cells", seq, p, found)}
 			}
 		}
 	}
@@ -328,7 +372,7 @@ func (s *c6State) checkVisible(layer int, batch input.Batch, k, v, mask *fakeml.
 	rows := mask.Dim(1)
 	n := len(batch.Positions)
 	if k.Dim(2) != hist {
-		return &c6Fail{"shape", fmt.Sprintf("key history %d != mask history %d", k.Dim(2), hist)}
+		return &c6Fail{clause: "shape", msg: fmt.Sprintf("key history %d != mask history %d", k.Dim(2), hist)}
 	}
 	for i := 0; i < rows; i++ {
 		type ent struct {
@@ -339,11 +383,11 @@ func (s *c6State) checkVisible(layer int, batch input.Batch, k, v, mask *fakeml.
 		for j := 0; j < hist; j++ {
 			m := mask.At(j, i)
 			if m != 0 && !math.IsInf(float64(m), -1) {
-				return &c6Fail{"mask-value", fmt.Sprintf("mask[%d,%d]=%v", j, i, m)}
+				return &c6Fail{clause: "mask-value", msg: fmt.Sprintf("mask[%d,%d]=%v", j, i, m)}
 			}
 			if i >= n {
 				if m == 0 {
-					return &c6Fail{"padding-unmasked", fmt.Sprintf("padding row %d of the batch attends to history column %d", i, j)}
+					return &c6Fail{clause: "padding-unmasked", msg: fmt.Sprintf("padding row %d of the batch attends to history column %d", i, j)}
 				}
 				continue
 			}
@@ -366,12 +410,12 @@ func (s *c6State) checkVisible(layer int, batch input.Batch, k, v, mask *fakeml.
 					vtag, vsub := vv/8, vv%8
 					sub := layer*4 + h*2 + d
 					if ksub != sub || vsub != sub || ktag != vtag {
-						return &c6Fail{"wrong-data", fmt.Sprintf("layer %d batch token %d history column %d element (%d,%d): key=(tag %d,sub %d,pos %d) value=(tag %d,sub %d), expected sub %d and equal tags", layer, i, j, d, h, ktag, ksub, kpos, vtag, vsub, sub)}
+						return &c6Fail{clause: "wrong-data", msg: fmt.Sprintf("layer %d batch token %d history column %d element (%d,%d): key=(tag %d,sub %d,pos %d) value=(tag %d,sub %d), expected sub %d and equal tags", layer, i, j, d, h, ktag, ksub, kpos, vtag, vsub, sub)}
 					}
 					if h == 0 && d == 0 {
 						tag0, pos0 = ktag, kpos
 					} else if ktag != tag0 || kpos != pos0 {
-						return &c6Fail{"wrong-data", fmt.Sprintf("layer %d history column %d mixes entries (tags %d/%d pos %d/%d)", layer, j, tag0, ktag, pos0, kpos)}
+						return &c6Fail{clause: "wrong-data", msg: fmt.Sprintf("layer %d history column %d mixes entries (tags %d/%d pos %d/%d)", layer, j, tag0, ktag, pos0, kpos)}
 					}
 				}
 			}
@@ -421,9 +465,13 @@ func (s *c6State) checkVisible(layer int, batch input.Batch, k, v, mask *fakeml.
 					}
 				}
 			}
+			expiredOnly := s.cfg.Window > 0
 			for _, e := range want {
 				if !visSet[e] {
 					missing++
+					if !s.expired[seq][e.tag] {
+						expiredOnly = false
+					}
 				}
 			}
 			switch {
@@ -436,7 +484,8 @@ func (s *c6State) checkVisible(layer int, batch input.Batch, k, v, mask *fakeml.
 			case extra > 0:
 				clause = "extra-entry"
 			}
-			return &c6Fail{clause, fmt.Sprintf("layer %d, batch token %d (seq %d pos %d): cache exposes (tag,pos) %v, the history is %v", layer, i, seq, pos, vis, want)}
+			return &c6Fail{clause: clause, msg: fmt.Sprintf("layer %d, batch token %d (seq %d pos %d): cache exposes (tag,pos) %v, the history is %v", layer, i, seq, pos, vis, want),
+				expiredOnly: clause == "missing-entry" && expiredOnly}
 		}
 	}
 	return nil
@@ -446,6 +495,9 @@ func (s *c6State) checkVisible(layer int, batch input.Batch, k, v, mask *fakeml.
 func (s *c6State) ops() []c6Op {
 	var out []c6Op
 	cfg := s.cfg
+	if s.dead {
+		return nil
+	}
 	// forward batches: every sequence composition up to MaxBatch tokens
 	var rec func(cur []int)
 	rec = func(cur []int) {
@@ -580,6 +632,9 @@ func (s *c6State) fingerprint() string {
 			}
 		}
 	}
+	if s.dead {
+		b.WriteString("|dead")
+	}
 	return b.String()
 }
 
@@ -682,7 +737,8 @@ func ZZVerifC06() {
 	r.Rule(fmt.Sprintf("breadth-first search over all histories of Forward (every composition of <= maxBatch tokens over the sequences, each continuing its sequence), CopyPrefix (every src,dst,len), Resume (CanResume+truncate at every prefix length) and Remove of every middle range up to depth %d on the real kvcache.Causal (fakeml lazy backend, 2 layers, 2x2 head layout), for every configuration of the grid; states deduplicated on a canonical fingerprint of the whole cache (cells, ranges, all stored data); plus, for caches of N cells filled by N single-token sequences, every subset of removed sequences followed by every batch size (all hole patterns a defragmentation can meet); non-trivial = distinct states in which some cell is shared by two sequences, a position was shifted, or cells were moved by defragmentation", depth))
 	r.Assume("the driver uses the cache the way the Cache interface documents and the runners do: positions continue the sequence; a sequence is cut back to a prefix only after CanResume(seq, prefixLen) said yes (else it is cleared), and that is also the first thing done with the target of a CopyPrefix; a middle range is removed without asking (context shift); after a Remove error the sequence is cleared",
 		"window semantics are those of the mask definition: entries with pos >= p - window are in the window",
-		"a sequence never outgrows the per-sequence capacity (the runner shifts before that)")
+		"a sequence never outgrows the per-sequence capacity (the runner shifts before that)",
+		"a history ends at a StartForward that reports ErrKvCacheFull: the runners treat it as fatal, the cache is not used afterwards")
 	r.Parallel(0, items, func(item string, sub *evid.Run) {
 		var ci int
 		fmt.Sscan(item, &ci)
@@ -731,7 +787,12 @@ func ZZVerifC06() {
 						} else {
 							sig += "/causal"
 						}
-						if n.defrag {
+						if cfg.Window > 0 && f.clause == "missing-entry" && !f.expiredOnly {
+							// an entry that never left the window of its sequence is gone: not the recorded
+							// window-reaches-back-after-a-shift finding
+							sig += "/live-entry"
+						}
+						if n.defrag && !f.expiredOnly {
 							sig += "/after-defrag"
 						}
 						// which kinds of history edits were involved
